@@ -413,7 +413,9 @@ class Run:
                 okr, logr = build_harness(True)
                 if not okr:
                     self.oblige('harness_builds_against_repo(release)', False, logr[-3000:])
-        return oko and okh
+        self.oracle_ok, self.harness_ok = oko, okh
+        # the search on the implementation needs only the harness; without the oracle the model side is skipped
+        return okh
 
     def finish(self, samples, rule, evaluations, distinct, extra_cov=None, assumptions=None):
         thms, exs = theorems_of(self.prop)
